@@ -261,3 +261,36 @@ pub fn punct_run_case(idx: u64) -> String {
     }
     format!("s:{pre}{run}{post}")
 }
+
+
+/// The leaves of the tree against the lexer's token table: every leaf starts and ends at a token
+/// boundary, and a non-trivia leaf never covers a trivia token (the parser glues punctuation
+/// characters into one operator only when nothing at all separates them).
+pub fn leaf_token_problems(text: &str) -> Vec<(String, String)> {
+    let lx = oq3_parser::LexedStr::new(text);
+    let mut bounds = std::collections::BTreeSet::new();
+    let mut trivia: Vec<(usize, usize)> = Vec::new();
+    for i in 0..lx.len() {
+        let r = lx.text_range(i);
+        bounds.insert(r.start);
+        bounds.insert(r.end);
+        if lx.kind(i).is_trivia() {
+            trivia.push((r.start, r.end));
+        }
+    }
+    let root = oq3_syntax::SourceFile::parse(text).syntax_node();
+    let mut out = Vec::new();
+    for t in root.descendants_with_tokens().filter_map(|e| e.into_token()) {
+        let r = t.text_range();
+        let (a, b): (usize, usize) = (r.start().into(), r.end().into());
+        if !bounds.contains(&a) || !bounds.contains(&b) {
+            out.push(("leaf-boundary-inside-a-token".to_string(), format!("leaf {:?} {:?} at {a}..{b}", t.kind(), t.text())));
+        } else if !t.kind().is_trivia() && trivia.iter().any(|(s, e)| *s < b && *e > a) {
+            out.push(("operator-glued-across-trivia".to_string(), format!("leaf {:?} {:?} at {a}..{b} covers trivia", t.kind(), t.text())));
+        }
+        if out.len() > 3 {
+            break;
+        }
+    }
+    out
+}
